@@ -77,6 +77,16 @@ def arg_pool():
         ("downsample_grid", (x6, y6, 1, 0), {}, "samples=1,remove_invalid=0"),
         ("downsample_grid", (x6, y6, 10), {}, "samples=10"),
     ]
+    # the same bytes read in the other byte order (other values)
+    le_x = np.array([513, 1027, 260, 2050, 771, 1285], dtype="<u2")
+    le_y = np.array([258, 1540, 515, 1029, 2056, 774], dtype="<u2")
+    be_x, be_y = le_x.view(">u2"), le_y.view(">u2")
+    pool += [
+        ("downsample_grid", (le_x, le_y, 3), {}, "u2 little endian"),
+        ("downsample_grid", (be_x, be_y, 3), {}, "u2 big endian, same bytes"),
+        ("kde_histogram", (le_x, le_y), {}, "u2 little endian"),
+        ("kde_histogram", (be_x, be_y), {}, "u2 big endian, same bytes"),
+    ]
     return pool
 
 
